@@ -339,7 +339,6 @@ FINDINGS = {
     "C04-subclass-ambiguity": finding_subclass,
     "C04-filter-none-anyelement": finding_filter_none_any,
     "C04-wrapper-local-names": finding_wrapper,
-    "C04-compound-str-as-int": finding_compound,
     "C04-derived-without-type": finding_derived,
 }
 
